@@ -134,10 +134,26 @@ PROPS = {
         "technique": "Lean 4 ledger proofs + kernel-decided regenerated facts + differential correspondence and scenario monitors",
         "explanation": "BurnCoins of the overriding keeper compared with the model for every module account; slash and deposit-burn scenarios on the real keepers with supply / community pool / distribution account monitored.",
     },
+    "C07": {
+        "id": "C07",
+        "lean_modules": ["HaqqModel.Props.C07"],
+        "level": "proof",
+        "trusted_base": COMMON_TRUST + [
+            "modelled, not verified: the go-ethereum interpreter and its gas schedule (the gas it consumed after refunds is an input, measured on a branch with the multiplier at 0), LegacyDec Mul/Ceil/TruncateInt on integer operands, bank module-to-account transfers, tx-level atomicity of the ante handler vs message execution",
+        ],
+        "assumptions": [
+            "consumed <= gasLimit (checked by the code) and minGasMultiplier <= 1 (Params.Validate)",
+            "multi-message Ethereum txs are sums of single-message settlements (the decorators loop over the messages)",
+        ],
+        "level_text": "Machine-checked proofs (Lean 4) that an accepted Cosmos or Ethereum fee is at least minGasPrice x gasLimit, that an Ethereum tx with fee cap below the base fee is refused, that gasUsed = max(floor(multiplier x limit), consumed - refund) never exceeds the limit, and that deduction minus refund is exactly gasUsed x effectivePrice; tied to the real decorators / VerifyFee on boundary tuples and to real signed Ethereum transactions through DeliverTx with sender and fee-collector deltas measured.",
+        "level_note": "Trusted: Lean kernel; correspondence harness; EVM gas consumption is an input of the model.",
+        "technique": "Lean 4 arithmetic proofs (omega over floor/ceil division) + differential correspondence on real transactions",
+        "explanation": "Floors, VerifyFee and the gasUsed/refund arithmetic modelled and proved; real transfers, storage set/clear (refund), reverts and out-of-gas runs are delivered and their gasUsed, sender payment and collector gain compared with the model and with independent big.Int monitors.",
+    },
 }
 
 # properties not (yet) claimed, each with a reason; entries disappear as checks are built
 NOT_APPLICABLE = {pid: "check not built yet in this session (planned: see DESIGN.md §5)" for pid in
-                  ["C01", "C02", "C03", "C04", "C05", "C07", "C08", "C10", "C15", "C16", "C19", "C20"]}
+                  ["C01", "C02", "C03", "C04", "C05", "C08", "C10", "C15", "C16", "C19", "C20"]}
 
 HOOK_COMMITS = []
